@@ -12,7 +12,11 @@ EXTRA = ["cat <(true) >/dev/null", "v=$(true; false)", "cat <<< x >/dev/null", "
          "true | false | true", "{ true; } > /dev/null 2>&1", "exec 5</dev/null; exec 5<&-", ": > /proc/version 2>/dev/null",
          "sleep 0 & wait", "f0 2>/dev/null | cat", "eval 'nosuchcmd_zz' 2>/dev/null", ": ${UNSETZZ-x}", "for i in 1 2; do true < /nonexistent_zz; done 2>/dev/null",
          "echo x > /nonexistent_zz/dir/f", "while read l; do :; done < /dev/null", "case x in x) RO=1 true ;; esac", "XT=1 nosuchcmd_zz",
-         "a=(1 2); a[1/0]=3 true", "( x=${UNSETZZ?nope} true )", "f0 > /nonexistent_zz/f", "XT=1 f0 < /nonexistent_zz/f"]
+         "a=(1 2); a[1/0]=3 true", "( x=${UNSETZZ?nope} true )", "f0 > /nonexistent_zz/f", "XT=1 f0 < /nonexistent_zz/f",
+         # functions whose DEFINITION carries a redirection that fails at call time (found missing by seed C18-1)
+         "fr 2>/dev/null", "XT=1 fr inner 2>/dev/null", "fw a b 2>/dev/null", "for i in 1 2; do XT=$i fr $i; done 2>/dev/null",
+         "fr 2>/dev/null | cat", "v=$(fr 2>&1)", "fok >/dev/null", "XT=1 fok"]
+DEFS = 'fr() { return 3; } < "/nonexistent_zz/$1"\nfw() { :; } > /nonexistent_zz/d/f\nfok() { :; } < /dev/null\n'
 
 
 def body_program(rng):
@@ -57,13 +61,13 @@ def run(ctx):
     for funcs, main in progs:
         txt = flowgen.render((funcs, main), fd3=True)
         lines = txt.rstrip("\n").split("\n")
-        prelude = "\n".join(l for l in lines[1:-1])          # without `exec 3>&1`
+        prelude = DEFS + "\n".join(l for l in lines[1:-1])          # without `exec 3>&1`
         body = lines[-1]
         if rng.random() < 0.5:
             body += "; " + rng.choice(EXTRA)
         reqs.append("%d %d %s %s" % (n1, n2, esc(prelude), esc(body)))
     for x in EXTRA:
-        reqs.append("%d %d %s %s" % (n1, n2, esc("readonly RO=0\nf0() { return 3; }"), esc(x)))
+        reqs.append("%d %d %s %s" % (n1, n2, esc(DEFS + "readonly RO=0\nf0() { return 3; }"), esc(x)))
     okh, outs, errs = lib.run_vh_parallel(BIN, reqs, workers=8)
     if not okh:
         ctx.broken.append("harness c18 died: " + errs[:500])
